@@ -160,6 +160,16 @@ def Calm (f : Font) : Prop := ∀ kl ∈ f.layers, kl.2.calm
 /-- layer `L` exists and nothing is held or disabled on it -/
 def CalmLayer (f : Font) (L : String) : Prop := ∃ l, AL.get? f.layers L = some l ∧ l.calm
 
+/-- nothing is held or disabled on layer `L`: every notification of the layer reaches the font at
+once (what holds as long as nobody calls `holdNotifications` / `disableNotifications` on it) -/
+def Undisturbed (f : Font) (L : String) : Prop :=
+  match AL.get? f.layers L with
+  | some l => l.held = 0 ∧ l.disabled = 0
+  | none => True
+
+instance (f : Font) (L : String) : Decidable (Undisturbed f L) := by
+  unfold Undisturbed; cases AL.get? f.layers L <;> exact inferInstance
+
 /-- the default layer, when it is a layer of the font, is one of `font.layers` -/
 def DefaultOK (f : Font) : Prop := ∀ L, f.default = some L → AL.contains f.layers L = true
 
